@@ -115,6 +115,34 @@ pub open spec fn dots_of<A>(rem: Seq<Dot<&A>>, m: SMap<A, u64>, full: bool) -> b
     &&& forall|i: int, j: int| 0 <= i < j < rem.len() ==> *(#[trigger] rem[i]).actor != *(#[trigger] rem[j]).actor
     &&& full ==> forall|a: A| m.contains_key(a) ==> exists|i: int| 0 <= i < rem.len() && *(#[trigger] rem[i]).actor == a
 }
+/// the entries a BTreeMap iterator yields, mapped to dots, enumerate the clock
+pub proof fn lemma_iter_dots_of<A: Ord>(es: Seq<(&A, &u64)>, m: SMap<A, u64>, g: spec_fn((&A, &u64)) -> Dot<&A>, rem: Seq<Dot<&A>>, full: bool)
+    requires
+        actor_ok::<A>(),
+        forall|p: (&A, &u64)| #[trigger] g(p) == (Dot { actor: p.0, counter: *p.1 }),
+        rem == es.map_values(g),
+        forall|j: int| 0 <= j < es.len() ==> m.contains_key(*(#[trigger] es[j]).0) && m[*es[j].0] == *es[j].1,
+        forall|k: A| m.contains_key(k) ==> es.contains((&k, &m[k])),
+        exists|kr: Seq<A>| #[trigger] vstd::std_specs::btree::increasing_seq(kr) && kr.len() == es.len() && forall|i: int| 0 <= i < es.len() ==> #[trigger] kr[i] == *es[i].0,
+    ensures dots_of(rem, m, full),
+{
+    let kr = choose|kr: Seq<A>| #[trigger] vstd::std_specs::btree::increasing_seq(kr) && kr.len() == es.len() && forall|i: int| 0 <= i < es.len() ==> #[trigger] kr[i] == *es[i].0;
+    vstd::std_specs::btree::axiom_increasing_seq_meaning(kr);
+    lemma_ord_ok::<A>();
+    assert forall|i: int| 0 <= i < rem.len() implies m.contains_key(*(#[trigger] rem[i]).actor) && m[*rem[i].actor] == rem[i].counter by {
+        assert(rem[i] == g(es[i]));
+    }
+    assert forall|i: int, j: int| 0 <= i < j < rem.len() implies *(#[trigger] rem[i]).actor != *(#[trigger] rem[j]).actor by {
+        assert(rem[i] == g(es[i]) && rem[j] == g(es[j]));
+        assert(kr[i] == *es[i].0 && kr[j] == *es[j].0);
+        assert(<A as vstd::std_specs::cmp::OrdSpec>::cmp_spec(&kr[i], &kr[j]) is Less);
+    }
+    assert forall|a: A| m.contains_key(a) implies exists|i: int| 0 <= i < rem.len() && *(#[trigger] rem[i]).actor == a by {
+        assert(es.contains((&a, &m[a])));
+        let i = choose|i: int| 0 <= i < es.len() && es[i] == (&a, &m[a]);
+        assert(rem[i] == g(es[i]));
+    }
+}
 /// same for the owning iterator
 pub open spec fn odots_of<A>(rem: Seq<Dot<A>>, m: SMap<A, u64>, full: bool) -> bool {
     &&& forall|i: int| 0 <= i < rem.len() ==> m.contains_key((#[trigger] rem[i]).actor) && m[rem[i].actor] == rem[i].counter
@@ -462,16 +490,16 @@ impl<A: Ord + Clone + core::fmt::Debug> core::iter::FromIterator<Dot<A>> for VCl
 //    prophetic iterator laws with a ghost prophecy field the real struct does not have.
 // ---------------------------------------------------------------------------------------------
 impl<A: Ord> VClock<A> {
-    #[verifier::external_body]
 //@extract fn src/vclock.rs "VClock" iter
     pub fn iter(&self) -> /*@ (r: @*/ impl Iterator<Item = Dot<&A>> /*@ ) @*/
     //@ ensures r.obeys_prophetic_iter_laws(), r.decrease() is Some,
     //@     actor_ok::<A>() ==> dots_of(r.remaining(), self@, r.will_return_none()),
     {
-        self.dots.iter().map(|(a, c)| Dot {
+        //@ let ghost g = |p: (&A, &u64)| Dot { actor: p.0, counter: *p.1 };
+        /*@ let it0 = @*/ self.dots.iter() /*@ ; let ghost es = it0.remaining(); proof { crate::stdx5::axiom_btree_iter_finite(&it0); } let r0 = crate::stdx5::shim_iter_map(it0, Ghost(g), @*/ /*@<*/ .map( /*@>*/ /*@<*/ | /*@>*/ /*@<pat*/ (a, c) /*@>*/ /*@<*/ | /*@>*/ /*@ |p: (&A, &u64)| -> (o: Dot<&A>) ensures o == g(p) { let $pat = p; @*/ Dot {
             actor: a,
             counter: *c,
-        })
+        } /*@ } @*/ ) /*@ ; proof { if actor_ok::<A>() { lemma_iter_dots_of(es, self.dots@, g, r0.remaining(), r0.will_return_none()); } } r0 @*/
     }
 //@end
 }
